@@ -10,6 +10,8 @@ import (
 
 	"github.com/opsidian/parsley/ast"
 	"github.com/opsidian/parsley/combinator"
+	"github.com/opsidian/parsley/data"
+	"github.com/opsidian/parsley/parser"
 	"github.com/opsidian/parsley/parsley"
 	"github.com/opsidian/parsley/text"
 	"github.com/opsidian/parsley/text/terminal"
@@ -395,6 +397,17 @@ func (t *c14Task) observeCtx(p parsley.Parser, prepared *parsley.Context) (obs s
 	if t.Transform {
 		ctx.EnableTransformation()
 	}
+	// a corrupted tree may be cyclic: Transform / StaticCheck / Evaluate would then recurse
+	// until the runtime kills the process, so the root parser's result is looked at first
+	// (the panic is an observation like any other and differs from the solo run)
+	root := p
+	p = parser.Func(func(ctx *parsley.Context, lrc data.IntMap, pos parsley.Pos) (parsley.Node, data.IntSet, parsley.Error) {
+		n, cp, err := root.Parse(ctx, lrc, pos)
+		if cyclicTree(n) {
+			panic("the tree returned by the root parser contains a node that is its own descendant")
+		}
+		return n, cp, err
+	})
 	var sb strings.Builder
 	if t.Twice {
 		n, err := parsley.Parse(ctx, p)
